@@ -142,9 +142,9 @@ ExportRow(chain) ==
    cases |-> [i \in DOMAIN ExportSeq |->
                 LET v == S(ExportSeq[i]) IN
                 IF Determinate(chain, v)
-                THEN [det |-> TRUE, out |-> ToText(ApplyChain(chain, v)),
+                THEN [det |-> TRUE, kind |-> ChainKind(chain, v), out |-> ToText(ApplyChain(chain, v)),
                       mid |-> IF Len(chain) = 2 THEN ToText(Apply(chain[1], v)) ELSE ""]
-                ELSE [det |-> FALSE, out |-> "", mid |-> ""]]]
+                ELSE [det |-> FALSE, kind |-> "contract", out |-> "", mid |-> ""]]]
 
 Export ==
   Mode = "export" =>
